@@ -169,6 +169,11 @@ class CallMixin:
                         return self.call_function(fv, [base] + list(args), kwargs, st, fr, node, dyn_cls=base.cls)
             if base.kind == 'seq' and name in ('index', 'count'):
                 raise Unsupported('sequence method %s' % name)
+            if base.kind == 'seq' and name == 'append' and base.cls == 'list':
+                n = self.arr_len(st, base)
+                self.arr_write(st, base, [n], args[0])
+                st.heap['$len'] = z3.Store(self.field(st, '$len'), base.ref, n + 1)
+                return None
             labels = []
             if base.cls:
                 for nm in self.tree.mro(base.cls):
